@@ -66,8 +66,35 @@ def bytes_(ctx):
         return
     locks = [c for c in b.calls if (c.t.get("r") or c.f) == RS + "lock"]
     got = []
+    byval = {}
+    for cid, cc in F.consts.items():
+        if cid.startswith(RS) and "v" in cc:
+            byval.setdefault(cc["v"], cid.rsplit("::", 1)[-1])
     for c in locks:
         k = op_const(c.args[2]) if len(c.args) > 2 else None
+        if k is None and len(c.args) > 2 and op_place(c.args[2]) is not None:
+            # the byte comes out of an array that is iterated (`for b in [RESERVED, PENDING, SHARED]` / a const table)
+            names_ = []
+            for o in flow.origins(b, op_place(c.args[2]), at=(c.bb, "T")):
+                if o.kind == "const" and o.const and "named" in o.const:
+                    tbl = F.consts.get(o.const["named"], {})
+                    if "arr" in tbl:
+                        names_ += [byval.get(v, str(v)) for v in tbl["arr"]]
+                    else:
+                        names_.append(o.const["named"].rsplit("::", 1)[-1])
+            if names_:
+                lt_ = None
+                for bb2 in b.live_blocks():
+                    for s_ in b.blocks[bb2]["s"]:
+                        if s_[0] == "A" and s_[2][0] == "agg" and isinstance(s_[2][1], dict) and s_[2][1].get("adt", "").endswith("LockType") and op_local(c.args[1]) == s_[1][0]:
+                            lt_ = s_[2][1]["variant"]
+                if lt_ is None:
+                    for o in (flow.origins(b, op_place(c.args[1]), at=(c.bb, "T")) if op_place(c.args[1]) is not None else ()):
+                        if o.kind == "const" and o.const and "agg" in o.const:
+                            lt_ = o.const["agg"].rsplit("::", 1)[-1]
+                for nm in names_:
+                    got.append((nm, lt_, c))
+                continue
         name = (k or {}).get("named", "").rsplit("::", 1)[-1]
         val = F.const_value(k)
         lt = None
@@ -83,7 +110,7 @@ def bytes_(ctx):
         got.append((name or str(val), lt, c))
     if not R.floor(len(got), 11, "lock-calls", "lock() calls in lock_all"):
         return
-    consts = {cid.rsplit("::", 1)[-1]: c.get("v") for cid, c in F.consts.items() if cid.startswith(RS)}
+    consts = {cid.rsplit("::", 1)[-1]: c.get("v") for cid, c in F.consts.items() if cid.startswith(RS) and "v" in c}
     wal_need = {"WRITE", "CKPT", "RECOVER", "READ0", "READ1", "READ2", "READ3", "READ4"}
     rb_need = {"RESERVED", "PENDING", "SHARED"}
     wl = {n for n, lt, c in got if lt == "Write"}
@@ -95,7 +122,8 @@ def bytes_(ctx):
     bad = []
     for n, lt, c in got:
         errs = flow.err_edge_of(b, c)
-        if not errs or any(o in b.reachable(e[1]) for e in errs for o in okret):
+        # (variant-sensitive: the error returned by an inlined locking helper cannot be matched as Ok by lock_all's own `?`)
+        if not errs or any(o in flow.variant_reach(b, e[1]) for e in errs[:1] for o in okret):
             bad.append(n)
     R.require(not bad, "failures-propagate", b.where(), "a lock that cannot be taken makes lock_all fail (no partial locking reported as success)",
               fail_msg="lock_all can report success although locking %s failed" % bad)
